@@ -1,6 +1,6 @@
 (** * Pickle: dump/load round-trips (C12): [_dump_manager]/[_load_manager],
       [_dump_bdd]/[load] *)
-From DD Require Export GC Subst Driver2.
+From DD Require Export Views.
 
 (** ** Declaring variables with explicit levels in a manager that has only
     the terminal node.  In the middle of such a loop the levels have gaps
@@ -10,11 +10,34 @@ Definition vstate (vm lm : gmap nat nat) (k : nat) : st :=
   St {[1%positive := tterm k]} {[tterm k := 1%positive]} {[1%positive := 1]}
      2%positive ∅ vm lm None false [] [] None.
 
+Lemma st_ext (a b : st) :
+  succ a = succ b → pred a = pred b → refc a = refc b → min_free a = min_free b →
+  ite_tab a = ite_tab b → vars a = vars b → lvl2var a = lvl2var b →
+  last_len a = last_len b → rctx a = rctx b → roots a = roots b → tape a = tape b →
+  trig a = trig b → a = b.
+Proof. destruct a, b. cbn. by intros -> -> -> -> -> -> -> -> -> -> -> ->. Qed.
+
 Lemma init_vstate : init = vstate ∅ ∅ 0.
 Proof.
-  unfold init, init_terminal, modify, empty_st, vstate. cbn [snd]. unfold set.
-  cbn [succ pred refc min_free ite_tab vars lvl2var last_len rctx roots tape trig].
-  rewrite lookup_empty. cbn [default]. rewrite delete_empty. reflexivity.
+  unfold init, init_terminal, modify. cbn [snd].
+  apply st_ext; try reflexivity; cbn -[tterm singletonM insert delete lookup].
+  rewrite lookup_empty. cbn [default]. by rewrite delete_empty.
+Qed.
+
+Lemma init_terminal_vstate vm lm k k' :
+  init_terminal k' (vstate vm lm k) = (Ok tt, vstate vm lm k').
+Proof.
+  unfold init_terminal, modify. f_equal.
+  apply st_ext; try reflexivity; cbn -[tterm singletonM insert delete lookup].
+  - apply insert_singleton.
+  - rewrite lookup_singleton. cbn [default]. by rewrite delete_singleton.
+Qed.
+
+Lemma nfl_vstate vm lm k i : lm !! i = None →
+  next_free_level (Some i) (vstate vm lm k) = (Ok i, vstate vm lm k).
+Proof.
+  intros Hi. unfold next_free_level. cbn [bind get].
+  change (lvl2var (vstate vm lm k)) with lm. by rewrite Hi.
 Qed.
 
 Lemma add_var_vstate vm lm v i :
@@ -25,15 +48,10 @@ Proof.
   intros Hv Hi. unfold add_var. cbn [bind get].
   change (vars (vstate vm lm (size vm))) with vm. rewrite Hv.
   rewrite decide_False by (by intros [? ?]).
-  assert (E1 : next_free_level (Some i) (vstate vm lm (size vm))
-               = (Ok i, vstate vm lm (size vm))).
-  { unfold next_free_level. cbn [bind get].
-    change (lvl2var (vstate vm lm (size vm))) with lm. by rewrite Hi. }
-  rewrite (bind_ok _ _ _ _ _ E1). cbn [bind modify get].
-  unfold init_terminal, modify, ret, vstate, set, nvars, bind.
-  cbn [succ pred refc min_free ite_tab vars lvl2var last_len rctx roots tape trig].
-  rewrite !lookup_singleton. cbn [default].
-  rewrite delete_singleton, insert_singleton. reflexivity.
+  rewrite (bind_ok _ _ _ _ _ (nfl_vstate vm lm _ i Hi)). cbn [bind modify get].
+  change (vstate vm lm (size vm) <| vars ::= <[v:=i]> |> <| lvl2var ::= <[i:=v]> |>)
+    with (vstate (<[v:=i]> vm) (<[i:=v]> lm) (size vm)).
+  rewrite (bind_ok _ _ _ _ _ (init_terminal_vstate _ _ _ _)). reflexivity.
 Qed.
 
 (** the variable loop of [BDD(levels)] *)
@@ -56,17 +74,17 @@ Proof.
   destruct (IH (<[v := i]> vm) (<[i := v]> lm) N1 N2) as (vm'&lm'&E&H1&H2).
   { intros v' i' Hin. destruct (Hf v' i' (elem_of_list_further _ _ _ Hin)) as [? ?].
     rewrite !lookup_insert_ne; [done|..].
-    - intros ->. apply Ni. apply elem_of_list_fmap. by exists (v', i').
-    - intros ->. apply Nv. apply elem_of_list_fmap. by exists (v, i'). }
+    - intros <-. apply Ni. apply elem_of_list_fmap. by exists (v', i).
+    - intros <-. apply Nv. apply elem_of_list_fmap. by exists (v, i'). }
   exists vm', lm'. split; [done|]. split.
   - intros x j. rewrite H1, lookup_insert_Some, elem_of_cons. split.
-    + intros [[[-> ->]|[? ?]]|?]; auto.
-    + intros [?|[[= -> ->]|?]]; auto.
-      destruct (decide (v = x)) as [->|?]; [congruence|auto].
+    + intros [[[Ev Ei]|[? ?]]|?]; [right; left; congruence|by left|by right; right].
+    + intros [Hx|[Hx|?]]; [|left; left; split; congruence|by right].
+      left; right. split; [|done]. intros Ev. congruence.
   - intros j x. rewrite H2, lookup_insert_Some, elem_of_cons. split.
-    + intros [[[-> ->]|[? ?]]|?]; auto.
-    + intros [?|[[= -> ->]|?]]; auto.
-      destruct (decide (i = j)) as [->|?]; [congruence|auto].
+    + intros [[[Ev Ei]|[? ?]]|?]; [right; left; congruence|by left|by right; right].
+    + intros [Hx|[Hx|?]]; [|left; left; split; congruence|by right].
+      left; right. split; [|done]. intros Ev. congruence.
 Qed.
 
 (** the state reached is a consistent manager when the levels are [0..n-1] *)
@@ -75,19 +93,27 @@ Lemma Inv_vstate vm lm :
   (∀ l, l < size vm ↔ is_Some (lm !! l)) →
   Inv (vstate vm lm (size vm)).
 Proof.
-  intros Hb Hl. split; cbn.
-  - by rewrite lookup_singleton.
-  - intros n t Hn Hn1. apply lookup_singleton_Some in Hn as [<- _]. done.
-  - intros n t. rewrite !lookup_singleton_Some. naive_solver.
-  - split; [done|]. intros k Hk. assert (k = 1%positive) as -> by lia.
-    rewrite lookup_singleton. by eexists.
-  - by rewrite !dom_singleton_L.
-  - intros g u v w Hi. by rewrite lookup_empty in Hi.
-  - done.
-  - done.
+  intros Hb Hl. set (k := size vm).
+  assert (Es : succ (vstate vm lm k) = {[1%positive := tterm k]}) by done.
+  assert (Ep : pred (vstate vm lm k) = {[tterm k := 1%positive]}) by done.
+  assert (Er : refc (vstate vm lm k) = {[1%positive := 1]}) by done.
+  split.
+  - by rewrite Es, lookup_singleton.
+  - intros n t Hn Hn1. rewrite Es in Hn. apply lookup_singleton_Some in Hn as [<- _]. done.
+  - intros n t. rewrite Es, Ep, !lookup_singleton_Some. split; intros [<- <-]; done.
+  - change (min_free (vstate vm lm k)) with 2%positive. rewrite Es. split; [done|].
+    intros j Hj. assert (j = 1%positive) as -> by lia. rewrite lookup_singleton. by eexists.
+  - by rewrite Es, Er, !dom_singleton_L.
+  - intros g u v w Hi. change (ite_tab (vstate vm lm k)) with (∅ : gmap (Z * Z * Z) Z) in Hi.
+    by rewrite lookup_empty in Hi.
+  - exact Hb.
+  - exact Hl.
 Qed.
 
 (** ** What [_dump_bdd] / [_dump_manager] write for the variables *)
+Lemma level_of_var_ok s v l : vars s !! v = Some l → level_of_var v s = (Ok l, s).
+Proof. intros H. unfold level_of_var. cbn [bind get]. by rewrite H. Qed.
+
 Lemma dump_vars s (vorder : list nat) :
   (∀ v, v ∈ vorder → is_Some (vars s !! v)) →
   ∃ vl, mapM (fun v => l <- level_of_var v ;; ret (v, l)) vorder s = (Ok vl, s) ∧
@@ -99,7 +125,7 @@ Proof.
   destruct IH as (vl&E&E1&Hvl). { intros x Hx. apply Hin. by apply elem_of_list_further. }
   exists ((v, l) :: vl). cbn [mapM].
   assert (El : (l <- level_of_var v ;; ret (v, l)) s = (Ok (v, l), s)).
-  { unfold level_of_var. cbn [bind get]. by rewrite Hl. }
+  { by rewrite (bind_ok _ _ _ _ _ (level_of_var_ok s v l Hl)). }
   rewrite (bind_ok _ _ _ _ _ El), (bind_ok _ _ _ _ _ E). split; [done|].
   split; [cbn; by rewrite E1|].
   intros x j Hx. apply elem_of_cons in Hx as [[= -> ->]|Hx]; [done|by apply Hvl].
@@ -157,3 +183,787 @@ Proof.
   - intros [l Hl]. exists (v, l). split; [done|]. by apply Hm.
 Qed.
 End vfile.
+
+Section vfile2.
+Context (s : st) (HI : Inv s) (vl : list (nat * nat)) (Hvl : vars_file s vl).
+
+Lemma valid_ordering_file : valid_ordering vl = true.
+Proof.
+  unfold valid_ordering. apply bool_decide_eq_true. rewrite (vfile_length s vl Hvl).
+  apply stdpp.sets.set_eq. intros l.
+  rewrite !elem_of_list_to_set, elem_of_seq, elem_of_list_fmap.
+  destruct Hvl as [_ Hm]. split.
+  - intros ([v l']&->&Hin). cbn. apply Hm in Hin. apply (inv_vars _ HI) in Hin.
+    split; [lia|]. cbn. apply (inv_lvls _ HI). by eexists.
+  - intros [_ Hl]. cbn in Hl. apply (inv_lvls _ HI) in Hl as [v Hv].
+    exists (v, l). split; [done|]. apply Hm. by apply (inv_vars _ HI).
+Qed.
+
+(** [BDD(levels)] on the file's variables rebuilds the order of [s] *)
+Lemma init_levels_file :
+  init_levels vl init = (Ok tt, vstate (vars s) (lvl2var s) (nvars s)).
+Proof.
+  unfold init_levels. rewrite valid_ordering_file. cbn [assert].
+  rewrite (bind_ok _ _ init tt init) by done.
+  rewrite init_vstate. change 0 with (size (∅ : gmap nat nat)).
+  destruct (var_loop vl ∅ ∅) as (vm'&lm'&E&H1&H2);
+    [apply Hvl|by apply (vfile_NoDup2 s)|by intros; rewrite !lookup_empty|].
+  rewrite E.
+  assert (vm' = vars s) as ->.
+  { apply map_eq. intros v. apply option_eq. intros l. rewrite H1, lookup_empty.
+    destruct Hvl as [_ Hm]. rewrite Hm. naive_solver. }
+  assert (lm' = lvl2var s) as ->.
+  { apply map_eq. intros l. apply option_eq. intros v. rewrite H2, lookup_empty.
+    destruct Hvl as [_ Hm]. rewrite Hm, (inv_vars _ HI). naive_solver. }
+  done.
+Qed.
+End vfile2.
+
+(** ** 6. Whole-manager pickle *)
+Theorem manager_roundtrip s vorder mf sd s0 :
+  Inv s → dump_manager vorder s = (Ok mf, sd) →
+  sd = s ∧
+  ∃ s1, load_manager mf s0 = (Ok tt, s1) ∧
+    succ s1 = succ s ∧ pred s1 = pred s ∧ refc s1 = refc s ∧
+    min_free s1 = min_free s ∧ vars s1 = vars s ∧ lvl2var s1 = lvl2var s ∧
+    roots s1 = roots s ∧ ite_tab s1 = ∅ ∧
+    last_len s1 = None ∧ rctx s1 = false ∧ trig s1 = None ∧
+    Inv s1 ∧ ∀ u ρ, denv s1 u ρ = denv s u ρ.
+Proof.
+  intros HI. unfold dump_manager. cbn [bind get].
+  destruct (bool_decide _) eqn:Eb; cbn [negb]; [|by intros [=]].
+  apply bool_decide_eq_true in Eb as [ND Hd].
+  destruct (dump_vars_file s vorder ND Hd) as (vl&E&_&Hvl).
+  rewrite (bind_ok _ _ _ _ _ E). intros [= <- <-]. split; [done|].
+  unfold load_manager. cbn [bind modify mf_vars].
+  rewrite (bind_ok _ _ _ _ _ (init_levels_file s HI vl Hvl)).
+  cbn [bind modify]. eexists. split; [reflexivity|].
+  cbn [mf_roots mf_pred mf_succ mf_ref mf_min_free].
+  split_and!; try reflexivity.
+  - eapply (Inv_same (clr s)); [|by apply Inv_W]. by repeat split.
+  - intros u ρ. unfold denv. by apply D_same.
+Qed.
+
+(** ** What [_dump_bdd] writes for the nodes *)
+Record nodes_file (s : st) (sl : list (positive * triple)) : Prop := {
+  nf_nodup : NoDup sl.*1;
+  nf_sub : ∀ k t, (k, t) ∈ sl → succ s !! k = Some t;
+  nf_closed : ∀ k t, (k, t) ∈ sl → k ≠ 1%positive →
+     absn (t_lo t) ∈ sl.*1 ∧ absn (t_hi t) ∈ sl.*1;
+}.
+
+Lemma dump_nodes s (order : list positive) :
+  (∀ k, k ∈ order → is_Some (succ s !! k)) →
+  ∃ sl, mapM (fun k => t <- getsucc k ;; ret (k, t)) order s = (Ok sl, s) ∧
+    sl.*1 = order ∧ ∀ k t, (k, t) ∈ sl → succ s !! k = Some t.
+Proof.
+  induction order as [|k o IH]; intros Hin.
+  { exists []. split; [done|]. split; [done|]. intros ?? H. by apply elem_of_nil in H. }
+  destruct (Hin k (elem_of_list_here _ _)) as [t Ht].
+  destruct IH as (sl&E&E1&Hsl). { intros x Hx. apply Hin. by apply elem_of_list_further. }
+  exists ((k, t) :: sl). cbn [mapM].
+  assert (El : (t <- getsucc k ;; ret (k, t)) s = (Ok (k, t), s)).
+  { by rewrite (bind_ok _ _ _ _ _ (getsucc_ok s k t Ht)). }
+  rewrite (bind_ok _ _ _ _ _ El), (bind_ok _ _ _ _ _ E). split; [done|].
+  split; [cbn; by rewrite E1|].
+  intros x j Hx. apply elem_of_cons in Hx as [[= -> ->]|Hx]; [done|by apply Hsl].
+Qed.
+
+Lemma dump_pickle_inv s roots order vorder pf sd :
+  Inv s → Forall (valid s) (roots_values roots) →
+  dump_pickle roots order vorder s = (Ok pf, sd) →
+  sd = s ∧ pf_roots pf = roots ∧ vars_file s (pf_vars pf) ∧
+  nodes_file s (pf_succ pf) ∧ (pf_succ pf).*1 = order ∧ (pf_vars pf).*1 = vorder ∧
+  (∀ u, u ∈ roots_values roots → absn u ∈ (pf_succ pf).*1) ∧
+  (∀ n, n ∈ order ↔ match roots with
+                     | RNone => n ∈ dom (succ s)
+                     | _ => reach (succ s) (rootsR (roots_values roots)) n
+                     end).
+Proof.
+  intros HI Hr. unfold dump_pickle. cbn [bind get].
+  assert (∃ X : gset positive,
+            (match roots with
+             | RNone => ret (dom (succ s))
+             | _ => descendants (roots_values roots)
+             end) s = (Ok X, s) ∧
+            (∀ n, n ∈ X ↔ match roots with
+                           | RNone => n ∈ dom (succ s)
+                           | _ => reach (succ s) (rootsR (roots_values roots)) n
+                           end) ∧
+            (∀ n, n ∈ X → n ∈ dom (succ s)) ∧
+            (∀ n t, n ∈ X → n ≠ 1%positive → succ s !! n = Some t →
+               absn (t_lo t) ∈ X ∧ absn (t_hi t) ∈ X) ∧
+            (∀ u, u ∈ roots_values roots → absn u ∈ X)) as (X&EX&HX&Hd&Hc&Hroots).
+  { assert (Hdesc : ∃ X, descendants (roots_values roots) s = (Ok X, s) ∧
+              (∀ n, n ∈ X ↔ reach (succ s) (rootsR (roots_values roots)) n) ∧
+              (∀ n, n ∈ X → n ∈ dom (succ s)) ∧
+              (∀ n t, n ∈ X → n ≠ 1%positive → succ s !! n = Some t →
+                 absn (t_lo t) ∈ X ∧ absn (t_hi t) ∈ X) ∧
+              (∀ u, u ∈ roots_values roots → absn u ∈ X)).
+    { destruct (descendants_exact s HI _ Hr) as (X&E&HX). exists X.
+      destruct (reach_set_closed s HI _ X HX) as [Hd Hc]. split_and!; try done.
+      intros u Hu. apply HX. apply reach_root; [by exists u|].
+      apply (valid_dom s). by eapply Forall_forall in Hr. }
+    destruct roots as [|l|d]; [|exact Hdesc..].
+    exists (dom (succ s)). split_and!; try done.
+    - intros n t Hn Hn1 Ht.
+      destruct (inv_node _ HI _ _ Ht Hn1) as (_&[_ ?]&_&[_ ?]&_).
+      split; by apply elem_of_dom.
+    - intros u Hu. by apply elem_of_nil in Hu. }
+  rewrite (bind_ok _ _ _ _ _ EX).
+  destruct (bool_decide (NoDup order ∧ _)) eqn:Eb1; cbn [negb]; [|by intros [=]].
+  destruct (bool_decide (NoDup vorder ∧ _)) eqn:Eb2; cbn [negb]; [|by intros [=]].
+  apply bool_decide_eq_true in Eb1 as [ND1 Ho], Eb2 as [ND2 Hv].
+  assert (Hin : ∀ k, k ∈ order ↔ k ∈ X).
+  { intros k. by rewrite <- Ho, elem_of_list_to_set. }
+  destruct (dump_nodes s order) as (sl&Es&Es1&Hsl).
+  { intros k Hk. exact (proj1 (elem_of_dom _ _) (Hd k (proj1 (Hin k) Hk))). }
+  destruct (dump_vars_file s vorder ND2 Hv) as (vl&Ev&Ev1&Hvl).
+  rewrite (bind_ok _ _ _ _ _ Es), (bind_ok _ _ _ _ _ Ev). intros [= <- <-].
+  cbn [pf_roots pf_vars pf_succ]. split_and!; try done.
+  - split.
+    + by rewrite Es1.
+    + exact Hsl.
+    + intros k t Hk Hk1. rewrite Es1, !Hin. apply (Hc k t); [|done|by apply Hsl].
+      apply Hin. rewrite <- Es1. apply elem_of_list_fmap. by exists (k, t).
+  - intros u Hu. rewrite Es1. apply Hin. by apply Hroots.
+  - intros n. by rewrite Hin.
+Qed.
+
+(** ** Loading: the variable loop of [_load_pickle] with [levels=True] *)
+Lemma add_var_ret v i r j r' : add_var v (Some i) r = (Ok j, r') → j = i.
+Proof.
+  unfold add_var. cbn [bind get]. destruct (decide (is_Some (vars r !! v))) as [[l Hl]|Hn].
+  - unfold check_var. cbn [bind get]. rewrite Hl.
+    destruct (decide (i = l)) as [->|?]; [|by intros [=]]. unfold ret. by intros [= <- <-].
+  - unfold next_free_level. unfold bind at 1 2. cbn [get].
+    destruct (lvl2var r !! i); [by intros [=]|]. cbn [ret bind modify get].
+    unfold init_terminal, modify, bind, ret. by intros [= <- _].
+Qed.
+
+Lemma add_var_idem v i r : vars r !! v = Some i → add_var v (Some i) r = (Ok i, r).
+Proof.
+  intros H. unfold add_var. cbn [bind get].
+  rewrite decide_True by (by eexists). unfold check_var. cbn [bind get]. rewrite H.
+  by rewrite decide_True.
+Qed.
+
+Lemma forM_add_var_idem (vl : list (nat * nat)) r :
+  (∀ v i, (v, i) ∈ vl → vars r !! v = Some i) →
+  forM vl (fun '(v, l) => add_var v (Some l) ;;; ret tt) r = (Ok tt, r).
+Proof.
+  induction vl as [|[v i] vl IH]; intros H; [done|]. cbn [forM].
+  rewrite (bind_ok _ _ _ tt _ (bind_ok _ _ _ _ _ (add_var_idem v i r (H v i (elem_of_list_here _ _))))).
+  apply IH. intros v' i' Hin. apply H. by apply elem_of_list_further.
+Qed.
+
+(** the loop of [_load_pickle] is the loop of [BDD(levels)] plus the
+    construction of [level_map], which is the identity *)
+Lemma pickle_var_loop n (vl : list (nat * nat)) : ∀ r r' (lm0 : gmap nat nat),
+  (∀ v i, (v, i) ∈ vl → i < n) →
+  forM vl (fun '(v, l) => add_var v (Some l) ;;; ret tt) r = (Ok tt, r') →
+  ∃ lm, foldM (fun (lm : gmap nat nat) '(v, i) =>
+            assert (bool_decide (i < n)) ;;;
+            j <- add_var v (Some i) ;;
+            ret (<[i := j]> lm)) lm0 vl r = (Ok lm, r') ∧
+    (∀ i, i ∈ vl.*2 → lm !! i = Some i) ∧
+    (∀ i, i ∉ vl.*2 → lm !! i = lm0 !! i).
+Proof.
+  induction vl as [|[v i] vl IH]; intros r r' lm0 Hn H.
+  { cbn in H. injection H as <-. exists lm0. split; [done|]. split; [|done].
+    intros i Hi. by apply elem_of_nil in Hi. }
+  cbn [forM] in H. cbn [foldM].
+  destruct (add_var v (Some i) r) as [[j|e] r1] eqn:E.
+  2:{ rewrite (bind_err _ _ _ _ _ (bind_err _ _ _ _ _ E)) in H. done. }
+  rewrite (bind_ok _ _ _ tt _ (bind_ok _ _ _ _ _ E)) in H.
+  pose proof (add_var_ret _ _ _ _ _ E) as ->.
+  assert (Estep : (assert (bool_decide (i < n)) ;;;
+                   j <- add_var v (Some i) ;; ret (<[i := j]> lm0)) r
+                  = (Ok (<[i := i]> lm0), r1)).
+  { rewrite bool_decide_eq_true_2 by (apply (Hn v); apply elem_of_list_here).
+    cbn [assert]. rewrite (bind_ok _ _ r tt r) by done. by rewrite (bind_ok _ _ _ _ _ E). }
+  rewrite (bind_ok _ _ _ _ _ Estep).
+  destruct (IH r1 r' (<[i := i]> lm0)) as (lm&El&H1&H2); [|done|].
+  { intros v' i' Hin. apply (Hn v'). by apply elem_of_list_further. }
+  exists lm. split; [done|]. cbn [fmap list_fmap]. split.
+  - intros i' Hi'. destruct (decide (i' ∈ vl.*2)) as [?|Hni]; [by apply H1|].
+    apply elem_of_cons in Hi' as [->|?]; [|done]. cbn. rewrite H2 by done.
+    by rewrite lookup_insert.
+  - intros i' Hi'. apply not_elem_of_cons in Hi' as [Hne Hni]. cbn in Hne.
+    rewrite H2 by done. by rewrite lookup_insert_ne.
+Qed.
+
+(** ** The file's node table *)
+Definition cnt (sl : list (positive * triple)) (l : nat) : nat :=
+  length (filter (fun p => l ≤ t_lvl p.2) sl).
+
+Lemma cnt_le sl l : cnt sl l ≤ length sl.
+Proof. apply filter_length. Qed.
+
+Lemma cnt_mono sl l l' : l ≤ l' → cnt sl l' ≤ cnt sl l.
+Proof.
+  intros Hl. unfold cnt. induction sl as [|p sl IH]; [done|].
+  rewrite !filter_cons. destruct (decide (l' ≤ t_lvl p.2)).
+  - rewrite decide_True by lia. cbn. lia.
+  - destruct (decide (l ≤ t_lvl p.2)); cbn; lia.
+Qed.
+
+Lemma cnt_lt sl k t l' : (k, t) ∈ sl → t_lvl t < l' → cnt sl l' < cnt sl (t_lvl t).
+Proof.
+  intros Hin Hl. unfold cnt. induction sl as [|p sl IH]; [by apply elem_of_nil in Hin|].
+  rewrite !filter_cons. apply elem_of_cons in Hin as [<-|Hin].
+  - cbn [snd]. rewrite decide_False by lia. rewrite decide_True by lia. cbn.
+    pose proof (cnt_mono sl (t_lvl t) l' ltac:(lia)). unfold cnt in *. lia.
+  - specialize (IH Hin). destruct (decide (l' ≤ t_lvl p.2)).
+    + rewrite decide_True by lia. cbn. lia.
+    + destruct (decide (t_lvl t ≤ t_lvl p.2)); cbn; lia.
+Qed.
+
+Lemma flip_abs u : u ≠ 0%Z → flip (Z.pos (absn u)) u = u.
+Proof. intros. unfold flip, absn. case_decide; lia. Qed.
+
+Lemma triple_eta t : t = Triple (t_lvl t) (t_lo t) (t_hi t).
+Proof. by destruct t. Qed.
+
+(** [find_or_add] on the components of a stored node finds that node and
+    leaves the manager untouched (reordering disabled) *)
+Lemma find_or_add_hit s n t :
+  Inv s → last_len s = None → succ s !! n = Some t → n ≠ 1%positive →
+  find_or_add (t_lvl t) (t_lo t) (t_hi t) s = (Ok (Z.pos n), s).
+Proof.
+  intros HI Hoff Ht Hn1. destruct (inv_node _ HI _ _ Ht Hn1) as (Hl&Hvl&Hhp&Hvh&_&_&Hne).
+  unfold find_or_add.
+  assert (Er : request_reordering s = (Ok tt, s)) by (unfold request_reordering; by rewrite Hoff).
+  rewrite (bind_ok _ _ _ _ _ Er). cbn [bind get].
+  rewrite decide_False by lia.
+  rewrite (proj2 (mem_valid s _) Hvl), (proj2 (mem_valid s _) Hvh). cbn [negb].
+  rewrite (decide_False (P := (t_hi t < 0)%Z)) by lia.
+  rewrite !Z.mul_1_l. rewrite decide_False by done.
+  rewrite <- triple_eta. apply (inv_pred _ HI) in Ht. rewrite Ht. done.
+Qed.
+
+Section same.
+Context (s : st) (HI : Inv s) (Hoff : last_len s = None).
+Context (sl : list (positive * triple)) (Hnf : nodes_file s sl).
+Context (lm : gmap nat nat) (Hlm : ∀ i, i < nvars s → lm !! i = Some i).
+
+Lemma fsucc_lookup k t :
+  (list_to_map sl : gmap positive triple) !! k = Some t ↔ (k, t) ∈ sl.
+Proof. symmetry. apply elem_of_list_to_map. apply Hnf. Qed.
+
+Lemma file_node k : k ∈ sl.*1 → ∃ t, (k, t) ∈ sl ∧ succ s !! k = Some t.
+Proof.
+  intros Hk. apply elem_of_list_fmap in Hk as ([k' t]&->&Hin). exists t.
+  split; [done|]. by apply (nf_sub _ _ Hnf).
+Qed.
+
+Definition um_same (umap : gmap positive Z) : Prop :=
+  ∀ k x, umap !! k = Some x → x = Z.pos k.
+
+Lemma load_rec_same fuel : ∀ u umap,
+  u ≠ 0%Z → (absn u = 1%positive ∨ absn u ∈ sl.*1) → um_same umap →
+  cnt sl (lvl_of s u) < fuel →
+  ∃ umap', load_rec fuel u (list_to_map sl) umap lm s = (Ok (u, umap'), s) ∧
+    um_same umap' ∧ (∀ k, is_Some (umap !! k) → is_Some (umap' !! k)) ∧
+    (absn u ≠ 1%positive → is_Some (umap' !! absn u)).
+Proof.
+  induction fuel as [|f IH]; intros u umap Hu0 Hin Hum Hf; [lia|].
+  cbn [load_rec]. rewrite decide_False by done.
+  destruct (decide (absn u = 1%positive)) as [E1|Hn1].
+  { exists umap. by split_and!. }
+  destruct Hin as [?|Hin]; [done|].
+  destruct (file_node _ Hin) as (t&Hint&Ht).
+  assert (Hlvl : lvl_of s u = t_lvl t) by (unfold lvl_of; by rewrite Ht).
+  destruct (inv_node _ HI _ _ Ht Hn1) as (Hl&Hvl&Hhp&Hvh&Hll&Hlh&Hne).
+  destruct (nf_closed _ _ Hnf _ _ Hint Hn1) as [Hcl Hch].
+  assert (Hmiss : ∀ umap0, um_same umap0 →
+     (∀ k, is_Some (umap !! k) → is_Some (umap0 !! k)) → umap0 = umap →
+     ∃ umap', (t <- of_opt EKey ((list_to_map sl : gmap positive triple) !! absn u) ;;
+       j <- of_opt EKey (lm !! t_lvl t) ;;
+       pc <- load_rec f (t_lo t) (list_to_map sl) umap lm ;; let '(p, umap) := pc in
+       qc <- load_rec f (t_hi t) (list_to_map sl) umap lm ;; let '(q, umap) := qc in
+       r <- find_or_add j p q ;;
+       assert (bool_decide (0 < r)%Z) ;;;
+       ret (flip r u, <[absn u := r]> umap)) s = (Ok (u, umap'), s) ∧
+     um_same umap' ∧ (∀ k, is_Some (umap !! k) → is_Some (umap' !! k)) ∧
+     (absn u ≠ 1%positive → is_Some (umap' !! absn u))).
+  { intros _ _ _ _.
+    rewrite (proj2 (fsucc_lookup _ _) Hint). cbn [of_opt].
+    rewrite (bind_ok _ _ s t s) by done.
+    rewrite (Hlm _ Hl). cbn [of_opt]. rewrite (bind_ok _ _ s (t_lvl t) s) by done.
+    destruct (IH (t_lo t) umap (proj1 Hvl) (or_intror Hcl) Hum) as (um1&E1&Hum1&Hd1&_).
+    { rewrite Hlvl in Hf. pose proof (cnt_lt sl _ t (lvl_of s (t_lo t)) Hint Hll). lia. }
+    rewrite (bind_ok _ _ _ _ _ E1).
+    destruct (IH (t_hi t) um1 (proj1 Hvh) (or_intror Hch) Hum1) as (um2&E2&Hum2&Hd2&_).
+    { rewrite Hlvl in Hf. pose proof (cnt_lt sl _ t (lvl_of s (t_hi t)) Hint Hlh). lia. }
+    rewrite (bind_ok _ _ _ _ _ E2).
+    rewrite (bind_ok _ _ _ _ _ (find_or_add_hit s _ t HI Hoff Ht Hn1)).
+    rewrite bool_decide_eq_true_2 by lia. cbn [assert].
+    rewrite (bind_ok _ _ s tt s) by done. rewrite flip_abs by done.
+    eexists. split; [reflexivity|]. split_and!.
+    - intros k x. rewrite lookup_insert_Some. intros [[<- <-]|[_ Hk]]; [done|by apply Hum2].
+    - intros k Hk. destruct (decide (absn u = k)) as [<-|?].
+      + rewrite lookup_insert. by eexists.
+      + rewrite lookup_insert_ne by done. by apply Hd2, Hd1.
+    - intros _. rewrite lookup_insert. by eexists. }
+  destruct (decide (0 < u)%Z) as [Hpos|Hneg]; [|by apply (Hmiss umap)].
+  destruct (umap !! absn u) as [r|] eqn:Er; [|by apply (Hmiss umap)].
+  pose proof (Hum _ _ Er) as ->.
+  rewrite bool_decide_eq_true_2 by lia. cbn [assert].
+  rewrite (bind_ok _ _ s tt s) by done. rewrite flip_abs by done.
+  exists umap. split_and!; try done.
+Qed.
+
+End same.
+
+Lemma mapM_ok {A B} (f : A → MS B) (g : A → B) (l : list A) s :
+  (∀ x, x ∈ l → f x s = (Ok (g x), s)) → mapM f l s = (Ok (g <$> l), s).
+Proof.
+  induction l as [|x l IH]; intros H; [done|]. cbn [mapM].
+  rewrite (bind_ok _ _ _ _ _ (H x (elem_of_list_here _ _))).
+  rewrite (bind_ok _ _ _ _ _ (IH (fun y Hy => H y (elem_of_list_further _ _ _ Hy)))).
+  done.
+Qed.
+
+(** the identity level map covers every level of the receiver *)
+Lemma lm_identity s vl (lm : gmap nat nat) :
+  Inv s → vars_file s vl → (∀ i, i ∈ vl.*2 → lm !! i = Some i) →
+  ∀ i, i < nvars s → lm !! i = Some i.
+Proof.
+  intros HI [_ Hm] H i Hi. apply H. apply (inv_lvls _ HI) in Hi as [v Hv].
+  apply (inv_vars _ HI) in Hv. apply elem_of_list_fmap. exists (v, i).
+  split; [done|]. by apply Hm.
+Qed.
+
+Lemma vfile_lt s vl v i : Inv s → vars_file s vl → (v, i) ∈ vl → i < length vl.
+Proof.
+  intros HI Hvl Hin. rewrite (vfile_length s vl Hvl). destruct Hvl as [_ Hm].
+  apply Hm in Hin. apply (inv_vars _ HI) in Hin. apply (inv_lvls _ HI). by eexists.
+Qed.
+
+Definition node_step (n : nat) (fsucc : gmap positive triple) (lm : gmap nat nat)
+  : gmap positive Z → positive * triple → MS (gmap positive Z) :=
+  fun umap '(u, _) =>
+    if decide (is_Some (umap !! u)) then ret umap else
+    r <- load_rec n (Z.pos u) fsucc umap lm ;; ret (snd r).
+
+Lemma node_loop_same s sl lm :
+  Inv s → last_len s = None → nodes_file s sl →
+  (∀ i, i < nvars s → lm !! i = Some i) →
+  ∀ (l : list (positive * triple)) umap,
+    (∀ k t, (k, t) ∈ l → k ∈ sl.*1) → um_same umap → is_Some (umap !! 1%positive) →
+    ∃ umap', foldM (node_step (S (length sl)) (list_to_map sl) lm) umap l s = (Ok umap', s) ∧
+      um_same umap' ∧ (∀ k, is_Some (umap !! k) → is_Some (umap' !! k)) ∧
+      (∀ k t, (k, t) ∈ l → is_Some (umap' !! k)).
+Proof.
+  intros HI Hoff Hnf Hlm. induction l as [|[k t] l IH]; intros umap Hl Hum H1.
+  { exists umap. split_and!; try done. intros ?? H. by apply elem_of_nil in H. }
+  cbn [foldM].
+  assert (∃ um1, node_step (S (length sl)) (list_to_map sl) lm umap (k, t) s = (Ok um1, s) ∧
+            um_same um1 ∧ (∀ k', is_Some (umap !! k') → is_Some (um1 !! k')) ∧
+            is_Some (um1 !! k)) as (um1&E1&Hum1&Hd1&Hk1).
+  { unfold node_step. destruct (decide (is_Some (umap !! k))) as [Hs|Hns].
+    { exists umap. by split_and!. }
+    destruct (load_rec_same s HI Hoff sl Hnf lm Hlm (S (length sl)) (Z.pos k) umap)
+      as (um1&E&Hum1&Hd1&Hk1); try done.
+    - right. rewrite absn_pos. apply (Hl k t). apply elem_of_list_here.
+    - pose proof (cnt_le sl (lvl_of s (Z.pos k))). lia.
+    - exists um1. rewrite (bind_ok _ _ _ _ _ E). split_and!; try done.
+      rewrite absn_pos in Hk1. apply Hk1. intros ->. done. }
+  rewrite (bind_ok _ _ _ _ _ E1).
+  destruct (IH um1) as (um2&E2&Hum2&Hd2&Hk2); [|done|by apply Hd1|].
+  { intros k' t' Hin. apply (Hl k' t'). by apply elem_of_list_further. }
+  exists um2. split_and!; try done.
+  - intros k' Hk'. by apply Hd2, Hd1.
+  - intros k' t' Hin. apply elem_of_cons in Hin as [[= -> ->]|Hin]; [by apply Hd2|by eapply Hk2].
+Qed.
+
+(** ** 5. Loading a dump back into the manager that wrote it *)
+Theorem pickle_roundtrip_same s roots order vorder pf sd :
+  Inv s → last_len s = None → Forall (valid s) (roots_values roots) →
+  dump_pickle roots order vorder s = (Ok pf, sd) →
+  sd = s ∧ load_pickle pf true s = (Ok roots, s).
+Proof.
+  intros HI Hoff Hr Hd.
+  destruct (dump_pickle_inv s roots order vorder pf sd HI Hr Hd)
+    as (->&Eroots&Hvl&Hnf&_&_&Hrin&_).
+  split; [done|]. unfold load_pickle, load_pickle_nodes.
+  destruct (pickle_var_loop (length (pf_vars pf)) (pf_vars pf) s s ∅) as (lm&Elm&Hlm&_).
+  { intros v i. by apply (vfile_lt s). }
+  { apply forM_add_var_idem. intros v i Hin. by apply Hvl. }
+  pose proof (lm_identity s _ lm HI Hvl Hlm) as Hid.
+  destruct (node_loop_same s (pf_succ pf) lm HI Hoff Hnf Hid (pf_succ pf) {[1%positive := 1%Z]})
+    as (umap&Eum&Hum&Hd1&Hk).
+  { intros k t Hin. apply elem_of_list_fmap. by exists (k, t). }
+  { intros k x Hx. apply lookup_singleton_Some in Hx as [<- <-]. done. }
+  { rewrite lookup_singleton. by eexists. }
+  assert (Enodes : (lm <- foldM (fun (lm : gmap nat nat) '(v, i) =>
+            assert (bool_decide (i < length (pf_vars pf))) ;;;
+            j <- add_var v (Some i) ;;
+            ret (<[i := j]> lm)) ∅ (pf_vars pf) ;;
+          foldM (fun umap '(u, _) =>
+            if decide (is_Some (umap !! u)) then ret umap else
+            r <- load_rec (S (length (pf_succ pf))) (Z.pos u) (list_to_map (pf_succ pf)) umap lm ;;
+            ret (snd r)) ({[1%positive := 1%Z]} : gmap positive Z) (pf_succ pf)) s
+          = (Ok umap, s)).
+  { rewrite (bind_ok _ _ _ _ _ Elm). exact Eum. }
+  rewrite (bind_ok _ _ _ _ _ Enodes).
+  assert (Hnode : ∀ u, u ∈ roots_values roots →
+     (if decide (u = 0%Z) then raise EKey else
+      v <- of_opt EKey (umap !! absn u) ;; ret (flip v u)) s = (Ok u, s)).
+  { intros u Hu. assert (Hv : valid s u) by (by eapply Forall_forall in Hr).
+    rewrite decide_False by apply Hv.
+    assert (is_Some (umap !! absn u)) as [x Hx].
+    { apply Hrin in Hu. apply elem_of_list_fmap in Hu as ([k t]&Ek&Hin). cbn in Ek.
+      rewrite Ek. by eapply Hk. }
+    rewrite Hx. cbn [of_opt]. rewrite (bind_ok _ _ s x s) by done.
+    rewrite (Hum _ _ Hx). unfold ret. f_equal. f_equal. apply flip_abs, Hv. }
+  rewrite Eroots. destruct roots as [|l|d]; [done| |].
+  - rewrite (bind_ok _ _ _ _ _ (mapM_ok _ id l s Hnode)). by rewrite list_fmap_id.
+  - erewrite (bind_ok (mapM _ d)); [|apply (mapM_ok _ id)].
+    + by rewrite list_fmap_id.
+    + intros [k u] Hin. rewrite (bind_ok _ _ s u s); [done|]. apply Hnode.
+      cbn. apply elem_of_list_fmap. by exists (k, u).
+Qed.
+
+(** ** Loading into another manager with the same variable order *)
+Lemma valid_flip s x u : valid s x → valid s (flip x u).
+Proof. intros. unfold flip. case_decide; [by apply valid_neg|done]. Qed.
+Lemma lvl_flip s x u : lvl_of s (flip x u) = lvl_of s x.
+Proof. unfold flip. case_decide; [by rewrite lvl_neg|done]. Qed.
+
+Section load.
+Context (s : st) (HI : Inv s).
+Context (sl : list (positive * triple)) (Hnf : nodes_file s sl).
+Context (lm : gmap nat nat) (Hlm : ∀ i, i < nvars s → lm !! i = Some i).
+
+(** receivers: consistent, same variable order as [s], reordering disabled *)
+Definition recv (r : st) : Prop :=
+  Inv r ∧ vars r = vars s ∧ lvl2var r = lvl2var s ∧ last_len r = None.
+
+Lemma recv_nvars r : recv r → nvars r = nvars s.
+Proof. intros (_&E&_). unfold nvars. by rewrite E. Qed.
+
+Lemma recv_step r r' : recv r → Inv r' → extends r r' → frame r r' → recv r'.
+Proof.
+  intros (_&E1&E2&E3) HI' (_&Ev&El) (Ef&_). split_and!; [done|congruence..].
+Qed.
+
+(** every file node already loaded is mapped to a positive reference of the
+    receiver denoting the same function of the levels *)
+Definition um_ok (r : st) (umap : gmap positive Z) : Prop :=
+  ∀ k x, umap !! k = Some x →
+    (0 < x)%Z ∧ valid r x ∧ valid s (Z.pos k) ∧
+    lvl_of s (Z.pos k) ≤ lvl_of r x ∧ ∀ a, D r x a = D s (Z.pos k) a.
+
+Lemma um_ok_extends r r' umap : Inv r → extends r r' → um_ok r umap → um_ok r' umap.
+Proof.
+  intros HIr He Hum k x Hx. destruct (Hum k x Hx) as (?&Hv&?&?&HD).
+  split_and!; try done.
+  - by apply (valid_extends r r').
+  - by rewrite (lvl_extends r r').
+  - intros a. by rewrite (D_extends r r').
+Qed.
+
+Lemma load_rec_spec fuel : ∀ u umap r,
+  recv r → valid s u → (absn u = 1%positive ∨ absn u ∈ sl.*1) → um_ok r umap →
+  cnt sl (lvl_of s u) < fuel →
+  ∃ p umap' r', load_rec fuel u (list_to_map sl) umap lm r = (Ok (p, umap'), r') ∧
+    recv r' ∧ extends r r' ∧ frame r r' ∧ um_ok r' umap' ∧
+    (∀ k, is_Some (umap !! k) → is_Some (umap' !! k)) ∧
+    (absn u ≠ 1%positive → is_Some (umap' !! absn u)) ∧
+    valid r' p ∧ lvl_of s u ≤ lvl_of r' p ∧ ∀ a, D r' p a = D s u a.
+Proof.
+  induction fuel as [|f IH]; intros u umap r Hrecv Hv Hin Hum Hf; [lia|].
+  pose proof Hrecv as (HIr&Evars&El2v&Hoff).
+  cbn [load_rec]. rewrite decide_False by apply Hv.
+  destruct (decide (absn u = 1%positive)) as [E1|Hn1].
+  { exists u, umap, r. split; [done|]. split; [done|]. split; [reflexivity|].
+    split; [reflexivity|]. split; [done|]. split; [done|]. split; [done|].
+    assert (Hvr : valid r u).
+    { split; [apply Hv|]. rewrite E1, (inv_term _ HIr). by eexists. }
+    split; [done|]. split.
+    - rewrite (lvl_term s HI u E1), (lvl_term r HIr u E1). by rewrite (recv_nvars r).
+    - intros a. by rewrite (D_term r HIr u a E1), (D_term s HI u a E1). }
+  destruct Hin as [?|Hin]; [done|].
+  destruct (file_node s sl Hnf _ Hin) as (t&Hint&Ht).
+  assert (Hlvl : lvl_of s u = t_lvl t) by (unfold lvl_of; by rewrite Ht).
+  destruct (inv_node _ HI _ _ Ht Hn1) as (Hl&Hvl&Hhp&Hvh&Hll&Hlh&Hne).
+  destruct (nf_closed _ _ Hnf _ _ Hint Hn1) as [Hcl Hch].
+  assert (Hmiss : ∀ umap0, umap0 = umap →
+     ∃ p umap' r',
+     (t <- of_opt EKey ((list_to_map sl : gmap positive triple) !! absn u) ;;
+       j <- of_opt EKey (lm !! t_lvl t) ;;
+       pc <- load_rec f (t_lo t) (list_to_map sl) umap lm ;; let '(p, umap) := pc in
+       qc <- load_rec f (t_hi t) (list_to_map sl) umap lm ;; let '(q, umap) := qc in
+       r <- find_or_add j p q ;;
+       assert (bool_decide (0 < r)%Z) ;;;
+       ret (flip r u, <[absn u := r]> umap)) r = (Ok (p, umap'), r') ∧
+     recv r' ∧ extends r r' ∧ frame r r' ∧ um_ok r' umap' ∧
+     (∀ k, is_Some (umap !! k) → is_Some (umap' !! k)) ∧
+     (absn u ≠ 1%positive → is_Some (umap' !! absn u)) ∧
+     valid r' p ∧ lvl_of s u ≤ lvl_of r' p ∧ ∀ a, D r' p a = D s u a).
+  { intros _ _.
+    rewrite (proj2 (fsucc_lookup s sl Hnf _ _) Hint). cbn [of_opt].
+    rewrite (bind_ok _ _ r t r) by done.
+    rewrite (Hlm _ Hl). cbn [of_opt]. rewrite (bind_ok _ _ r (t_lvl t) r) by done.
+    destruct (IH (t_lo t) umap r Hrecv Hvl (or_intror Hcl) Hum)
+      as (p&um1&r1&E1&Hrecv1&He1&Hf1&Hum1&Hd1&_&Hpv&Hpl&HpD).
+    { rewrite Hlvl in Hf. pose proof (cnt_lt sl _ t (lvl_of s (t_lo t)) Hint Hll). lia. }
+    rewrite (bind_ok _ _ _ _ _ E1).
+    destruct (IH (t_hi t) um1 r1 Hrecv1 Hvh (or_intror Hch) Hum1)
+      as (q&um2&r2&E2&Hrecv2&He2&Hf2&Hum2&Hd2&_&Hqv&Hql&HqD).
+    { rewrite Hlvl in Hf. pose proof (cnt_lt sl _ t (lvl_of s (t_hi t)) Hint Hlh). lia. }
+    rewrite (bind_ok _ _ _ _ _ E2).
+    pose proof Hrecv1 as (HI1&_). pose proof Hrecv2 as (HI2&_&_&Hoff2).
+    assert (Hpv2 : valid r2 p) by (by apply (valid_extends r1 r2)).
+    assert (Hpl2 : t_lvl t < lvl_of r2 p) by (rewrite (lvl_extends r1 r2) by done; lia).
+    assert (Hql2 : t_lvl t < lvl_of r2 q) by lia.
+    destruct (find_or_add (t_lvl t) p q r2) as [rx r3] eqn:Ex.
+    pose proof Ex as Ex'.
+    apply find_or_add_spec in Ex' as (HI3&He3&Hf3&Hx); [|done..].
+    destruct rx as [x|e]; [|destruct Hx as (_&[? Hll']&_); congruence].
+    destruct Hx as (Hxv&Hxl&HxD).
+    rewrite (bind_ok _ _ _ _ _ Ex).
+    assert (HDx : ∀ a, D r3 x a = D s (Z.pos (absn u)) a).
+    { intros a. rewrite HxD, HqD, (D_extends r1 r2 p) by done. rewrite HpD.
+      assert (Hvp : valid s (Z.pos (absn u))).
+      { split; [done|]. rewrite absn_pos. by eexists. }
+      rewrite (D_step s HI (Z.pos (absn u)) a t Hvp) by (by rewrite ?absn_pos).
+      rewrite bool_decide_eq_false_2 by lia. by rewrite xorb_false_l. }
+    assert (Hxpos : (0 < x)%Z).
+    { pose proof (D_all_true r3 HI3 x Hxv) as Hat. rewrite HDx in Hat.
+      assert (Hvp : valid s (Z.pos (absn u))).
+      { split; [done|]. rewrite absn_pos. by eexists. }
+      rewrite (D_all_true s HI _ Hvp) in Hat.
+      rewrite bool_decide_eq_true_2 in Hat by lia. symmetry in Hat.
+      by apply bool_decide_eq_true in Hat. }
+    rewrite bool_decide_eq_true_2 by done. cbn [assert].
+    rewrite (bind_ok _ _ r3 tt r3) by done.
+    assert (He13 : extends r r3) by (do 2 (etrans; [eassumption|]); done).
+    assert (Hf13 : frame r r3) by (do 2 (etrans; [eassumption|]); done).
+    eexists _, _, r3. split; [reflexivity|]. split; [by apply (recv_step r)|].
+    split; [done|]. split; [done|]. split_and!.
+    - intros k y. rewrite lookup_insert_Some. intros [[<- <-]|[_ Hk]].
+      + split; [done|]. split; [done|].
+        split; [split; [done|]; rewrite absn_pos; by eexists|].
+        split; [|done]. change (lvl_of s (Z.pos (absn u))) with (lvl_of s u). lia.
+      + by apply (um_ok_extends r2 r3 um2).
+    - intros k Hk. destruct (decide (absn u = k)) as [<-|?].
+      + rewrite lookup_insert. by eexists.
+      + rewrite lookup_insert_ne by done. by apply Hd2, Hd1.
+    - intros _. rewrite lookup_insert. by eexists.
+    - by apply valid_flip.
+    - rewrite lvl_flip. lia.
+    - intros a. rewrite (D_flip r3 HI3 x u a Hxv), HDx. symmetry. by apply D_abs. }
+  destruct (decide (0 < u)%Z) as [Hpos|Hneg]; [|by apply (Hmiss umap)].
+  destruct (umap !! absn u) as [x|] eqn:Ex; [|by apply (Hmiss umap)].
+  destruct (Hum _ _ Ex) as (Hxp&Hxv&_&Hxl&HxD).
+  rewrite bool_decide_eq_true_2 by done. cbn [assert].
+  rewrite (bind_ok _ _ r tt r) by done.
+  assert (Eu : Z.pos (absn u) = u) by (unfold absn; lia).
+  assert (Efl : flip x u = x) by (unfold flip; by rewrite decide_False by lia).
+  rewrite Efl. rewrite Eu in *.
+  exists x, umap, r. split; [done|]. split; [done|]. split; [reflexivity|].
+  split; [reflexivity|]. split_and!; try done.
+Qed.
+
+Lemma node_loop_spec :
+  ∀ (l : list (positive * triple)) umap r,
+    (∀ k t, (k, t) ∈ l → k ∈ sl.*1) → recv r → um_ok r umap →
+    is_Some (umap !! 1%positive) →
+    ∃ umap' r', foldM (node_step (S (length sl)) (list_to_map sl) lm) umap l r
+                = (Ok umap', r') ∧
+      recv r' ∧ extends r r' ∧ frame r r' ∧ um_ok r' umap' ∧
+      (∀ k, is_Some (umap !! k) → is_Some (umap' !! k)) ∧
+      (∀ k t, (k, t) ∈ l → is_Some (umap' !! k)).
+Proof.
+  induction l as [|[k t] l IH]; intros umap r Hl Hrecv Hum H1.
+  { exists umap, r. split; [done|]. split; [done|]. split; [reflexivity|].
+    split; [reflexivity|]. split_and!; try done. intros ?? H. by apply elem_of_nil in H. }
+  cbn [foldM].
+  assert (∃ um1 r1, node_step (S (length sl)) (list_to_map sl) lm umap (k, t) r = (Ok um1, r1) ∧
+            recv r1 ∧ extends r r1 ∧ frame r r1 ∧ um_ok r1 um1 ∧
+            (∀ k', is_Some (umap !! k') → is_Some (um1 !! k')) ∧
+            is_Some (um1 !! k)) as (um1&r1&E1&Hrecv1&He1&Hf1&Hum1&Hd1&Hk1).
+  { unfold node_step. destruct (decide (is_Some (umap !! k))) as [Hs|Hns].
+    { exists umap, r. split; [done|]. split; [done|]. split; [reflexivity|].
+      split; [reflexivity|]. by split_and!. }
+    assert (Hk : k ∈ sl.*1) by (apply (Hl k t); apply elem_of_list_here).
+    destruct (file_node s sl Hnf _ Hk) as (t'&_&Ht').
+    destruct (load_rec_spec (S (length sl)) (Z.pos k) umap r Hrecv)
+      as (p&um1&r1&E&Hrecv1&He1&Hf1&Hum1&Hd1&Hk1&_); try done.
+    - right. by rewrite absn_pos.
+    - pose proof (cnt_le sl (lvl_of s (Z.pos k))). lia.
+    - exists um1, r1. rewrite (bind_ok _ _ _ _ _ E). split_and!; try done.
+      rewrite absn_pos in Hk1. apply Hk1. intros ->. done. }
+  rewrite (bind_ok _ _ _ _ _ E1).
+  destruct (IH um1 r1) as (um2&r2&E2&Hrecv2&He2&Hf2&Hum2&Hd2&Hk2); [|done|done|by apply Hd1|].
+  { intros k' t' Hin. apply (Hl k' t'). by apply elem_of_list_further. }
+  exists um2, r2. split; [done|]. split; [done|].
+  split; [by etrans|]. split; [by etrans|]. split_and!; try done.
+  - intros k' Hk'. by apply Hd2, Hd1.
+  - intros k' t' Hin. apply elem_of_cons in Hin as [[= -> ->]|Hin]; [by apply Hd2|by eapply Hk2].
+Qed.
+
+End load.
+
+(** same container shape, related references position by position *)
+Inductive roots_rel (P : Z → Z → Prop) : rootsC → rootsC → Prop :=
+  | rr_none : roots_rel P RNone RNone
+  | rr_list l l' : Forall2 P l l' → roots_rel P (RList l) (RList l')
+  | rr_dict (d d' : list (nat * Z)) :
+      Forall2 (fun x y => x.1 = y.1 ∧ P x.2 y.2) d d' →
+      roots_rel P (RDict d) (RDict d').
+
+Lemma mapM_rel {A B} (f : A → MS B) (P : A → B → Prop) (l : list A) s :
+  (∀ x, x ∈ l → ∃ y, f x s = (Ok y, s) ∧ P x y) →
+  ∃ l', mapM f l s = (Ok l', s) ∧ Forall2 P l l'.
+Proof.
+  induction l as [|x l IH]; intros H.
+  { exists []. by split. }
+  destruct (H x (elem_of_list_here _ _)) as (y&Ey&Py).
+  destruct IH as (l'&El&Hl). { intros z Hz. apply H. by apply elem_of_list_further. }
+  exists (y :: l'). cbn [mapM].
+  rewrite (bind_ok _ _ _ _ _ Ey), (bind_ok _ _ _ _ _ El). split; [done|].
+  by constructor.
+Qed.
+
+(** the references returned by a load denote, by variable names, what the
+    dumped ones denoted in [s] *)
+Definition same_fun (s r : st) (u u' : Z) : Prop :=
+  valid r u' ∧ ∀ ρ, denv r u' ρ = denv s u ρ.
+
+(** everything after the variable loop *)
+Lemma load_pickle_from s pf roots r0 r :
+  Inv s → Forall (valid s) (roots_values roots) → pf_roots pf = roots →
+  vars_file s (pf_vars pf) → nodes_file s (pf_succ pf) →
+  (∀ u, u ∈ roots_values roots → absn u ∈ (pf_succ pf).*1) →
+  recv s r →
+  forM (pf_vars pf) (fun '(v, l) => add_var v (Some l) ;;; ret tt) r0 = (Ok tt, r) →
+  ∃ roots' r', load_pickle pf true r0 = (Ok roots', r') ∧
+    recv s r' ∧ extends r r' ∧ frame r r' ∧ roots_rel (same_fun s r') roots roots'.
+Proof.
+  intros HI Hr Eroots Hvl Hnf Hrin Hrecv Hvars.
+  unfold load_pickle, load_pickle_nodes.
+  destruct (pickle_var_loop (length (pf_vars pf)) (pf_vars pf) r0 r ∅) as (lm&Elm&Hlm&_);
+    [|done|].
+  { intros v i. by apply (vfile_lt s). }
+  pose proof (lm_identity s _ lm HI Hvl Hlm) as Hid.
+  destruct (node_loop_spec s HI (pf_succ pf) Hnf lm Hid (pf_succ pf) {[1%positive := 1%Z]} r)
+    as (umap&r'&Eum&Hrecv'&He&Hf&Hum&Hd1&Hk); [|done| | |].
+  { intros k t Hin. apply elem_of_list_fmap. by exists (k, t). }
+  { pose proof Hrecv as (HIr&_). intros k x Hx.
+    apply lookup_singleton_Some in Hx as [<- <-].
+    split; [done|]. split; [by apply valid_1|]. split; [by apply valid_1|].
+    split.
+    - rewrite (lvl_term s HI 1), (lvl_term r HIr 1) by done. by rewrite (recv_nvars s r).
+    - intros a. by rewrite (D_1 r HIr), (D_1 s HI). }
+  { rewrite lookup_singleton. by eexists. }
+  assert (Enodes : (lm <- foldM (fun (lm : gmap nat nat) '(v, i) =>
+            assert (bool_decide (i < length (pf_vars pf))) ;;;
+            j <- add_var v (Some i) ;;
+            ret (<[i := j]> lm)) ∅ (pf_vars pf) ;;
+          foldM (fun umap '(u, _) =>
+            if decide (is_Some (umap !! u)) then ret umap else
+            r <- load_rec (S (length (pf_succ pf))) (Z.pos u) (list_to_map (pf_succ pf)) umap lm ;;
+            ret (snd r)) ({[1%positive := 1%Z]} : gmap positive Z) (pf_succ pf)) r0
+          = (Ok umap, r')).
+  { rewrite (bind_ok _ _ _ _ _ Elm). exact Eum. }
+  rewrite (bind_ok _ _ _ _ _ Enodes).
+  pose proof Hrecv' as (HIr'&_&El2v&_).
+  assert (Hnode : ∀ u, u ∈ roots_values roots → ∃ u',
+     (if decide (u = 0%Z) then raise EKey else
+      v <- of_opt EKey (umap !! absn u) ;; ret (flip v u)) r' = (Ok u', r') ∧
+     same_fun s r' u u').
+  { intros u Hu. assert (Hv : valid s u) by (by eapply Forall_forall in Hr).
+    rewrite decide_False by apply Hv.
+    assert (is_Some (umap !! absn u)) as [x Hx].
+    { apply Hrin in Hu. apply elem_of_list_fmap in Hu as ([k t]&Ek&Hin). cbn in Ek.
+      rewrite Ek. by eapply Hk. }
+    rewrite Hx. cbn [of_opt]. rewrite (bind_ok _ _ r' x r') by done.
+    destruct (Hum _ _ Hx) as (_&Hxv&_&_&HxD).
+    exists (flip x u). split; [done|]. split; [by apply valid_flip|].
+    intros ρ. unfold denv. rewrite El2v.
+    rewrite (D_flip r' HIr' x u _ Hxv), HxD. symmetry. by apply D_abs. }
+  exists (match roots with
+          | RNone => RNone
+          | RList l => RList ((fun u => flip (default 0%Z (umap !! absn u)) u) <$> l)
+          | RDict d => RDict ((fun p => (p.1, flip (default 0%Z (umap !! absn p.2)) p.2)) <$> d)
+          end), r'.
+  assert (Hnode' : ∀ u, u ∈ roots_values roots →
+     (if decide (u = 0%Z) then raise EKey else
+      v <- of_opt EKey (umap !! absn u) ;; ret (flip v u)) r'
+     = (Ok (flip (default 0%Z (umap !! absn u)) u), r') ∧
+     same_fun s r' u (flip (default 0%Z (umap !! absn u)) u)).
+  { intros u Hu. destruct (Hnode u Hu) as (u'&E&Hs).
+    assert (u' = flip (default 0%Z (umap !! absn u)) u) as <-; [|done].
+    revert E. rewrite decide_False by (eapply Forall_forall in Hr; [apply Hr|done]).
+    destruct (umap !! absn u) as [x|]; cbn [of_opt default].
+    - rewrite (bind_ok _ _ r' x r') by done. unfold ret. by intros [= <-].
+    - by intros [=]. }
+  rewrite Eroots. split_and!; try done.
+  - destruct roots as [|l|d]; [done| |].
+    + rewrite (bind_ok _ _ _ _ _ (mapM_ok _ _ l r' (fun u Hu => proj1 (Hnode' u Hu)))). done.
+    + erewrite (bind_ok (mapM _ d)); [reflexivity|].
+      apply (mapM_ok _ (fun p => (p.1, flip (default 0%Z (umap !! absn p.2)) p.2))).
+      intros [k u] Hin. cbn [fst snd].
+      rewrite (bind_ok _ _ r' (flip (default 0%Z (umap !! absn u)) u) r'); [done|].
+      apply Hnode'. cbn. apply elem_of_list_fmap. by exists (k, u).
+  - destruct roots as [|l|d]; constructor.
+    + apply Forall2_fmap_r, Forall_Forall2_diag, Forall_forall.
+      intros u Hu. by apply Hnode'.
+    + apply Forall2_fmap_r, Forall_Forall2_diag, Forall_forall.
+      intros [k u] Hin. split; [done|]. apply Hnode'. cbn.
+      apply elem_of_list_fmap. by exists (k, u).
+Qed.
+
+(** ** 4. Loading a dump into a fresh manager *)
+Theorem pickle_roundtrip_fresh s roots order vorder pf sd :
+  Inv s → Forall (valid s) (roots_values roots) →
+  dump_pickle roots order vorder s = (Ok pf, sd) →
+  sd = s ∧
+  ∃ roots' s1, load_pickle pf true init = (Ok roots', s1) ∧
+    Inv s1 ∧ vars s1 = vars s ∧ lvl2var s1 = lvl2var s ∧
+    roots_rel (same_fun s s1) roots roots'.
+Proof.
+  intros HI Hr Hd.
+  destruct (dump_pickle_inv s roots order vorder pf sd HI Hr Hd)
+    as (->&Eroots&Hvl&Hnf&_&_&Hrin&_).
+  split; [done|].
+  set (r := vstate (vars s) (lvl2var s) (nvars s)).
+  assert (Hrecv : recv s r).
+  { split_and!; try done. apply Inv_vstate; [apply (inv_vars _ HI)|apply (inv_lvls _ HI)]. }
+  assert (Hvars : forM (pf_vars pf) (fun '(v, l) => add_var v (Some l) ;;; ret tt) init
+                  = (Ok tt, r)).
+  { pose proof (init_levels_file s HI _ Hvl) as E. unfold init_levels in E.
+    rewrite (valid_ordering_file s HI _ Hvl) in E. cbn [assert] in E.
+    by rewrite (bind_ok _ _ init tt init) in E. }
+  destruct (load_pickle_from s pf roots init r HI Hr Eroots Hvl Hnf Hrin Hrecv Hvars)
+    as (roots'&s1&E&(HI1&Ev&El&_)&_&_&Hrel).
+  exists roots', s1. by split_and!.
+Qed.
+
+(** ** Loading into any consistent manager with the same variable order
+    (reordering disabled); the manager only grows *)
+Theorem pickle_roundtrip_into s roots order vorder pf sd r :
+  Inv s → Forall (valid s) (roots_values roots) →
+  dump_pickle roots order vorder s = (Ok pf, sd) →
+  Inv r → vars r = vars s → lvl2var r = lvl2var s → last_len r = None →
+  sd = s ∧
+  ∃ roots' r', load_pickle pf true r = (Ok roots', r') ∧
+    Inv r' ∧ extends r r' ∧ frame r r' ∧
+    roots_rel (same_fun s r') roots roots'.
+Proof.
+  intros HI Hr Hd HIr Ev El Hoff.
+  destruct (dump_pickle_inv s roots order vorder pf sd HI Hr Hd)
+    as (->&Eroots&Hvl&Hnf&_&_&Hrin&_).
+  split; [done|].
+  assert (Hrecv : recv s r) by (by split_and!).
+  assert (Hvars : forM (pf_vars pf) (fun '(v, l) => add_var v (Some l) ;;; ret tt) r
+                  = (Ok tt, r)).
+  { apply forM_add_var_idem. intros v i Hin. rewrite Ev. by apply Hvl. }
+  destruct (load_pickle_from s pf roots r r HI Hr Eroots Hvl Hnf Hrin Hrecv Hvars)
+    as (roots'&r'&E&(HI1&_)&He&Hf&Hrel).
+  exists roots', r'. by split_and!.
+Qed.
